@@ -50,6 +50,7 @@ def cases(O):
                     k += 1
                     cs.append({"id": "c12ref-%d" % k, "config": vlib.default_config(chainSourceMap=chain, comments=comments), "fs": fs,
                                "calls": [{"code": prog + "\n//# sourceMappingURL=" + ref + "\n", "file": "r.js"}], "opts": {}})
+    cs += E.feature_mix_cases()
     return cs
 
 
@@ -86,7 +87,7 @@ def judge(ctx):
             out.append(Failure("status modified but the content has %d inline source-map trailers" % (len(body) - 1)))
         else:
             try:
-                mp = json.loads(base64.b64decode(body[1].strip()))
+                mp = json.loads(base64.b64decode(body[1].strip(), validate=True))
                 if mp.get("version") != 3:
                     out.append(Failure("trailer does not decode to a version-3 map"))
             except Exception as e:
